@@ -24,7 +24,12 @@ class Obs:
         if r is None:
             r = {"stages": [], "rounds": [], "metadata_empty": False, "index": [False, False], "pool": [False, False],
                  "clean": bool(mirror._repository.clean), "retries": mirror._config.release_files_retries,
-                 "result": None, "publish": None, "error_before_publish": None}
+                 "result": None, "publish": None, "error_before_publish": None,
+                 # L2 (Model/Mirror.lean): what the stages hand to each other
+                 "mirror_dir": str(mirror._config.mirror_path / mirror._repository.get_mirror_path(mirror._config.encode_tilde)),
+                 "pool_need": None, "meta_paths": None, "clean_args": None,
+                 "autoclean": bool(mirror._config.autoclean),
+                 "wipe": [mirror._config.wipe_size_ratio, mirror._config.wipe_count_ratio]}
             self.repos[url] = r
             self.by_repo_id[id(mirror._repository)] = (r, mirror)
         return r
@@ -84,12 +89,14 @@ class Obs:
             r["stages"].append("pool")
             res = await o["download_pool_files"](self)
             r["pool"] = [bool(self._downloader.has_errors()), bool(self._downloader.has_missing())]
+            r["pool_need"] = sorted((parts(f.path), int(f.size)) for f in res)
             return res
 
         async def move_metadata(self, metadata_files):
             r = obs.rec(self)
             r["stages"].append("publish")
             metadata_files = list(metadata_files)
+            r["meta_paths"] = sorted({tuple(parts(p)) for f in metadata_files for p in f.get_all_paths()})
             mp = self._repository.get_mirror_path(self._config.encode_tilde)
             mirror_full = self._config.mirror_path / mp
             skel_full = self._config.skel_path / mp
@@ -113,6 +120,8 @@ class Obs:
         async def clean_repository(self, needed_files, unlink):
             r = obs.rec(self)
             r["stages"].append("clean")
+            r["clean_args"] = {"needed": sorted(tuple(parts(p)) for p in needed_files), "unlink": bool(unlink),
+                               "skip": sorted(tuple(parts(p)) for p in self._repository.skip_clean)}
             return await o["clean_repository"](self, needed_files, unlink)
 
         RM.mirror = mirror
@@ -207,3 +216,59 @@ def publish_disagreements(info):
         return (f"move_metadata operation sequences differ at position {k}: real={real[k:k + 2]} model={filt[k:k + 2]} "
                 f"(lengths {len(real)}/{len(filt)})")
     return ""
+
+
+def pool_listing(mirror_dir):
+    """regular files below the repository's mirror directory that are not below a top-level metadata folder (dists*):
+    [(parts, size)]"""
+    out = []
+    for dp, dns, fns in os.walk(mirror_dir):
+        rel = os.path.relpath(dp, mirror_dir)
+        relp = [] if rel == "." else rel.split(os.sep)
+        if relp and relp[0].startswith("dists"):
+            dns[:] = []
+            continue
+        for f in fns:
+            p = os.path.join(dp, f)
+            if os.path.islink(p) or not os.path.isfile(p):
+                continue
+            out.append((relp + [f], os.path.getsize(p)))
+    return sorted(out)
+
+
+def mirror_run_disagreements(r, before, after, requested):
+    """L2 correspondence: Model/Mirror.lean `run` fed with what the real stages handed over (pool queue, skip-clean) and the
+    tree found before the run, against what the real run did: bodies requested for pool paths, files removed, final tree.
+    Only for a standard repository run that ended without error with automatic cleaning and no wipe protection."""
+    if not (r.get("result") and r.get("clean") and r.get("autoclean") and r.get("pool_need") is not None and r.get("clean_args")):
+        return None
+    wipe_on = any(w not in (None, 0, 0.0) for w in r.get("wipe", []))
+    # the queue entries the stage reported obtained (a failed file under ignore_errors stays out: it is neither kept nor counted)
+    obtained = set(r["clean_args"]["needed"])
+    pool_need = [(p, sz) for p, sz in r["pool_need"] if tuple(p) in obtained]
+    need_paths = {tuple(p) for p, _ in pool_need}
+    # pool paths below dists (flat repositories) are published by move_metadata, outside the pool part of the model
+    if any(p and p[0].startswith("dists") for p in need_paths):
+        return None
+    m = driver().call("mirror_run", tree=[[p, sz, 0] for p, sz in before], meta=[],
+                      pool=[[p, sz, 1, [sz] if sz else []] for p, sz in pool_need], skip=[list(p) for p in r["clean_args"]["skip"]])
+    out = []
+    if wipe_on and m["removals"] and {tuple(p) for p, _ in before} <= {tuple(p) for p, _ in after}:
+        return None   # the wipe protection (C04's subject, not part of the L2 model) refused the clean
+    real_final = sorted((tuple(p), sz) for p, sz in after)
+    model_final = sorted((tuple(p), sz) for p, sz, _ in m["final"])
+    if real_final != model_final:
+        extra = [x for x in real_final if x not in model_final][:3]
+        missing = [x for x in model_final if x not in real_final][:3]
+        out.append(f"final tree: only real {extra} only model {missing}")
+    real_tr = sorted({tuple(p) for p in requested if tuple(p) in need_paths})
+    model_tr = sorted(tuple(p) for p in m["transfers"])
+    if real_tr != model_tr:
+        out.append(f"pool bodies requested: real-only {[x for x in real_tr if x not in model_tr][:3]} model-only {[x for x in model_tr if x not in real_tr][:3]}")
+    before_s = {tuple(p) for p, _ in before}
+    after_s = {tuple(p) for p, _ in after}
+    real_rm = sorted((before_s | set(real_tr)) - after_s)
+    model_rm = sorted(tuple(p) for p in m["removals"])
+    if real_rm != model_rm:
+        out.append(f"removed files: real {real_rm[:3]} model {model_rm[:3]}")
+    return out
